@@ -85,9 +85,27 @@ def run_mutant(pid, mod, name, path, meta, repo=R.REPO, known_keys=()):
             if det and not expects:
                 expects = [x for x in (det if isinstance(det, list) else [det]) if isinstance(x, str) and x.startswith(pid + '.')]
         fired = bool(keys) and (not expects or any(any(e in k for k in keys) for e in expects))
-        return {'name': name, 'status': 'fired' if fired else ('missed' if must else 'not_claimed'), 'keys': keys[:6], 'expects': expects}
+        return {'name': name, 'status': 'fired' if fired else ('missed' if must else 'not_claimed'), 'keys': keys[:6], 'all_keys': keys, 'expects': expects}
     finally:
         shutil.rmtree(d, ignore_errors=True)
+
+
+def _remember(name, keys):
+    """mutants/results.json: violation key -> own mutants that raised it (input of tools/rule_coverage.py)"""
+    import fcntl
+    rp = os.path.join(VERIF, 'mutants', 'results.json')
+    with open(rp, 'a+') as f:
+        fcntl.flock(f, fcntl.LOCK_EX)
+        f.seek(0)
+        txt = f.read()
+        d = json.loads(txt) if txt.strip() else {}
+        for k in keys:
+            d.setdefault(k, [])
+            if name not in d[k]:
+                d[k].append(name)
+        f.seek(0)
+        f.truncate()
+        json.dump(d, f, indent=0, sort_keys=True)
 
 
 def run_generic(ctx, pid, mod):
@@ -103,6 +121,8 @@ def run_generic(ctx, pid, mod):
         r = run_mutant(pid, mod, name, path, meta, known_keys=known | base)
         results.append(r)
         print('  mutant %-40s %s %s' % (r['name'], r['status'], r.get('keys', r.get('why', ''))))
+        if r['status'] == 'fired' and name.startswith('own:'):
+            _remember(name, r.get('all_keys', r['keys']))
     broken = [r['name'] for r in results if r['status'] in ('missed', 'error')]
     extra = {
         'mutants': {
